@@ -197,6 +197,7 @@ def _getStepAndCycleLengths(cs):
                 cumulativeDays = cycle["cumulative days"]
                 stepLengths.append(getStepsFromValues(cumulativeDays))
             elif "burn steps" in cycleKeys and "cycle length" in cycleKeys:
+                # a cycle without burn steps has no steps (as for the simple cycle inputs)
                 stepLengths.append(
                     [
                         cycle["cycle length"]
@@ -204,16 +205,23 @@ def _getStepAndCycleLengths(cs):
                         / cycle["burn steps"]
                     ]
                     * cycle["burn steps"]
+                    if cycle["burn steps"]
+                    else []
                 )
             else:
                 raise ValueError(
                     f"No cycle time history is given in the detailed cycles history for cycle {cycleIdx}"
                 )
 
-        cycleLengths = [sum(cycleStepLengths) for cycleStepLengths in stepLengths]
+        # a cycle length that is given is taken as it is (it cannot be recovered from the steps
+        # of a cycle without burn steps or with an availability factor of zero)
         cycleLengths = [
-            cycleLength / aFactor
-            for (cycleLength, aFactor) in zip(cycleLengths, availabilityFactors)
+            cycle["cycle length"]
+            if "cycle length" in cycle.keys()
+            else sum(cycleStepLengths) / aFactor
+            for (cycle, cycleStepLengths, aFactor) in zip(
+                cs["cycles"], stepLengths, availabilityFactors
+            )
         ]
 
     else:
